@@ -33,6 +33,23 @@ Theorem C12_writer_follows_layout : forall c ser ko vo meta f,
 Proof. exact save_doc_is_layout. Qed.
 Print Assumptions C12_writer_follows_layout.
 
+(* what the layout is: one entry per node, in pre-order, numbered 1..n; the parent field is 0 exactly
+   for top-level nodes and otherwise the position of the EARLIER entry of the node's parent *)
+Theorem C12_layout_shape : forall c ser km vm f,
+  List.length (layout c ser km vm f) = size_f f /\
+  map SerLayFacts.q_node (lay_f 0 1 f) = pre_f f /\
+  map SerLayFacts.q_pos (lay_f 0 1 f) = seq 1 (size_f f) /\
+  (forall q, In q (lay_f 0 1 f) -> SerLayFacts.q_ppos q = 0 \/ (1 <= SerLayFacts.q_ppos q /\ SerLayFacts.q_ppos q < SerLayFacts.q_pos q)).
+Proof. exact layout_shape. Qed.
+Print Assumptions C12_layout_shape.
+
+Theorem C12_layout_parent : forall f q, In q (lay_f 0 1 f) ->
+  (SerLayFacts.q_ppos q = 0 /\ In (SerLayFacts.q_node q) f) \/
+  exists y, In y (lay_f 0 1 f) /\ SerLayFacts.q_pos y = SerLayFacts.q_ppos q /\
+            In (SerLayFacts.q_node q) (rch (SerLayFacts.q_node y)).
+Proof. exact layout_parent. Qed.
+Print Assumptions C12_layout_parent.
+
 (* the node list alone (no header): to_list_iter *)
 Theorem C12_to_list_iter_layout : forall c ser km vm f,
   ids_ok f -> km_ok km -> entries_ok c ser km vm f ->
